@@ -47,12 +47,14 @@ type ClaimFile struct {
 	Assumptions    []string  `json:"assumptions,omitempty"`
 	Undecided      []string  `json:"attempted_undecided,omitempty"`
 	TimeoutS       int       `json:"timeout_s,omitempty"` // per-query solver timeout of the quick tier (default 10)
+	OverflowFuncs  []string  `json:"overflow_functions,omitempty"` // functions whose machine-integer overflow obligations belong to the claim (arithmetic on user-supplied integers)
 	Kinds          []string  `json:"kinds,omitempty"`     // when set: only obligations of these kinds belong to the claim (e.g. the safety kinds for a panic-freedom claim)
 }
 
 func (c *ClaimFile) kindAllowed(kind string) bool {
 	if len(c.Kinds) == 0 {
-		return true
+		// machine-integer overflow obligations belong to a claim only when it asks for them
+		return kind != "overflow"
 	}
 	for _, k := range c.Kinds {
 		if k == kind {
@@ -170,7 +172,18 @@ func CmdCheck(args []string) int {
 		for _, o := range u.Obls {
 			// a clause tagged explicitly with the property belongs to the claim whatever its kind
 			explicit := len(o.Tags) > 0 && hasTag(o.Tags, claim.Property)
-			if !hasTag(o.Tags, claim.Property) || !(claim.kindAllowed(o.Kind) || explicit) {
+			if o.Kind == "overflow" {
+				// overflow obligations are claimed per function
+				listed := false
+				for _, f := range claim.OverflowFuncs {
+					if f == key {
+						listed = true
+					}
+				}
+				if !listed {
+					continue
+				}
+			} else if !hasTag(o.Tags, claim.Property) || !(claim.kindAllowed(o.Kind) || explicit) {
 				continue
 			}
 			if o.Smoke {
